@@ -176,7 +176,7 @@ def build():
         ("C08.fail,C16.errors", "!final(w).check_mode && res.is_ok() ==> final(w).files.len() > 0 && exists|cfg: Config| #[trigger] effective(cfg, *old(w))"
          " && all_edited(*final(w), cfg, final(w).files.len() as int)"),
     ]
-    f.before_stmt("if app_context.check_mode", "proof { assert(effective(app_context.config, *old(w))); assert(atomic_inv(*w)); }\n    ")
+    f.before_stmt(r"if\s+!?\s*app_context\s*\.\s*check_mode", regex=True, text="proof { assert(effective(app_context.config, *old(w))); assert(atomic_inv(*w)); }\n    ")
     for callee, fact in (("generate_code", "all_edited(*w, app_context.config, w.files.len() as int)"),
                          ("check_references", "tree_missing(w.files, old(w).fs, app_context.config, w.files.len() as int) == 0")):
         s0, e0, _ = f.find_one("codegen::generate::%s(" % callee)
